@@ -230,6 +230,12 @@ pub fn main(tier: Tier, seed: u64) -> i32 {
             return rep.finish();
         }
     };
+    let mut cases = cases;
+    // two lies inside one message (would cancel in a check that accumulates deviations)
+    match crate::campaign::gen_pair_cases(&cfgs, &["dvalue", "faand", "fabitn"], if tier.is_thorough() { 24 } else { 9 }) {
+        Ok(p) => cases.extend(p),
+        Err(e) => rep.machinery(e),
+    }
     let j = judge_detection(&mut rep, &cfgs, &cases, "C04");
     // tap-based persistent variants
     let taps: Vec<(&str, Vec<&str>)> = vec![
